@@ -5,5 +5,5 @@ cd "$(dirname "$0")"
 sh ../coq/mkproject.sh && make -C ../coq -j16 >/dev/null 2>&1 || { echo "Coq build failed"; exit 1; }
 coqc -R ../coq/theories SQ Extract.v >/dev/null
 mkdir -p ../build
-ocamlfind ocamlopt -O3 -w -a -package str model.mli model.ml driver_base.ml c11.ml roots.ml hist.ml print.ml fault.ml format.ml find.ml count.ml conc.ml api.ml tri.ml main.ml -o ../build/sqmodel 2>&1 || \
-ocamlfind ocamlopt -w -a model.mli model.ml driver_base.ml c11.ml roots.ml hist.ml print.ml fault.ml format.ml find.ml count.ml conc.ml api.ml tri.ml main.ml -o ../build/sqmodel
+ocamlfind ocamlopt -O3 -w -a -package str model.mli model.ml driver_base.ml c11.ml roots.ml hist.ml print.ml fault.ml format.ml find.ml count.ml conc.ml api.ml tri.ml alias.ml main.ml -o ../build/sqmodel 2>&1 || \
+ocamlfind ocamlopt -w -a model.mli model.ml driver_base.ml c11.ml roots.ml hist.ml print.ml fault.ml format.ml find.ml count.ml conc.ml api.ml tri.ml alias.ml main.ml -o ../build/sqmodel
